@@ -146,7 +146,7 @@ func c05LeafInScope(t reflect.Type) (bool, string) {
 func c05ColsFor(name string, t reflect.Type) (good, odd, panicky []c05Col) {
 	toks := c05TyToks(t, true)
 	mk := func(v string, sub string, i1, i2 int, leaf reflect.Type, resolves bool, viaSlice string) c05Col {
-		col := c05Col{Var: v, I1: i1, I2: i2, Format: "%v", Width: 40, Align: "left", GoType: t.String(), typeToks: toks, sub: sub, sliceLen: c05SliceLen}
+		col := c05Col{Var: v, I1: i1, I2: i2, Format: "%v", Width: 40, Align: []string{"left", "right", "center", "none"}[len(v)%4], GoType: t.String(), typeToks: toks, sub: sub, sliceLen: c05SliceLen}
 		if resolves && leaf != nil {
 			col.Leaf = leaf.String()
 			ok, kind := c05LeafInScope(leaf)
